@@ -198,6 +198,27 @@ def mixed_stream(rnd, n):
     return out
 
 
+ALL_DTYPES = ["None", "object", "'category'", "pd.CategoricalDtype(ordered=True)", "'str'", "'string'", "'Int64'", "'Int8'", "'UInt16'", "'Float64'", "'boolean'",
+              "'float64'", "'float32'", "'int64'", "'uint8'", "'bool'", "'complex128'", "'datetime64[ns]'", "'timedelta64[ns]'",
+              "pd.SparseDtype('float64')", "pd.SparseDtype('int64', 0)", "pd.SparseDtype(object)", "'string[pyarrow]'", "'int64[pyarrow]'", "'bool[pyarrow]'", "'double[pyarrow]'"]
+
+
+def cross_stream(rnd, n):
+    """every value pool under every dtype (most combinations pandas refuses are simply skipped)"""
+    pools = list(POOLS)
+    out = []
+    for _ in range(n):
+        pool = rnd.choice(pools)
+        dtype = rnd.choice(ALL_DTYPES)
+        k = rnd.randint(1, 3)
+        vals = [rnd.choice(POOLS[pool]) for _ in range(k)]
+        if rnd.random() < 0.3:
+            vals.insert(rnd.randrange(len(vals) + 1), rnd.choice(NULLS))
+        out.append({"recipe": series_recipe(vals, dtype), "family": "cross", "pool": pool, "dtype": dtype, "nulls": "?", "null": None,
+                    "len": len(vals), "index": "None"})
+    return out
+
+
 def special_stream():
     """hand-picked corners (empty, all-null per dtype, sparse, tz-aware, huge ints, ...)"""
     rs = [
@@ -279,7 +300,7 @@ def materialise(item):
 def all_streams(rnd, tier, n_fam=None, n_mixed=None):
     n_fam = n_fam or (1500 if tier == "quick" else 20000)
     n_mixed = n_mixed or (500 if tier == "quick" else 6000)
-    return (bank_stream() + special_stream() + file_stream() + family_stream(rnd, n_fam) + mixed_stream(rnd, n_mixed)
+    return (bank_stream() + special_stream() + file_stream() + family_stream(rnd, n_fam) + mixed_stream(rnd, n_mixed) + cross_stream(rnd, n_mixed * 2)
             + long_stream(rnd, 40 if tier == "quick" else 600))
 
 
